@@ -86,7 +86,11 @@ func (c *check) Init(tier string, seed int64) engine.Space {
 	for _, s := range c.skel {
 		tables += s.count
 	}
-	chunk := int64(4)
+	// one unit per request (0.1-1 s of work): a change of the code under test that makes a whole class
+	// of documents overflow the stack (fatal, not recoverable: the engine restarts the worker and
+	// re-runs the range without the poisoned case) must stay below the engine's limit of worker deaths
+	// per range
+	chunk := int64(1)
 	return engine.Space{
 		Units: c.nF + c.nA + c.nB + c.nC, Chunk: chunk, Level: "model_checking",
 		Rule: "every ordered forest of 2 elements under <body> x every assignment of the 21 display keywords x {no extra, or one extra deviation of the full list: out-of-flow and display-rewriting properties (float, absolute, fixed, float:footnote with block and inline footnote-display, position:running()), pseudo-elements, replaced elements that load (object with svg / raster data, inline svg) with fallback content, children and pseudo-elements of their own, <img>/<embed> children with pseudo-elements or display:list-item, images that fail}; then every ordered forest of 3 (thorough: also 4) elements under <body> x every assignment of the 21 display keywords to every element (4 elements: at most 3 deviations in total) x {no extra, or one extra deviation}; then every <table> of up to 3 rows with the listed cells per row x every (colspan,rowspan) of the menu per cell x row-group layouts; each case is built with the real BuildFormattingStructure and checked against I1..I9; a case is non-trivial when the fix-up passes had to create at least one anonymous box or drop an element",
